@@ -34,7 +34,7 @@ BRANCHES = [
 class C11(Prop):
     id = "C11"
     title = "heart_beat runs once per interval per enabled object; faults stay local"
-    lean_modules = ["NV.C11.Props", "NV.C11.Witness", "NV.C11.Trace", "NV.C11.Negative"]
+    lean_modules = ["NV.C11.Props", "NV.C11.Witness", "NV.C11.Search", "NV.C11.Trace", "NV.C11.Negative"]
     theorems = [
         "NV.C11.model_satisfies_spec",
         "NV.C11.hb_index_in_bounds",
@@ -70,6 +70,11 @@ class C11(Prop):
         "NV.C11.sim_round",
         "NV.C11.sim_reload",
         "NV.C11.sim_tick",
+        "NV.C11.searchLoop_eq",
+        "NV.C11.searchBack_eq_idxOf",
+        "NV.C11.searchBack_none_iff",
+        "NV.C11.hbs_nodup",
+        "NV.C11.search_direction_unobservable",
         "NV.C11.gen_shbGuard_eq",
         "NV.C11.gen_retuneStore_eq",
         "NV.C11.gen_growCap_eq",
